@@ -9,7 +9,8 @@ import (
 )
 
 // Static family: what reflect.StructOf cannot express — anonymous embedding (value and pointer),
-// gorm.Model, TableName(), an anonymous struct with an embeddedPrefix tag.
+// gorm.Model, TableName(), an anonymous struct with an embeddedPrefix tag, promoted fields (also the key)
+// shadowed by outer fields.
 
 type Base struct {
 	ID        uint `gorm:"primaryKey"`
@@ -60,6 +61,25 @@ type SComp struct {
 	Raw     []byte
 }
 
+// SShadow: named structs embedded the Go way whose promoted fields are shadowed by outer fields of the
+// same name, declared after the embedded struct (CreatedAt, By) and before it (Rev).
+type SShadow struct {
+	Base
+	Payload   string
+	CreatedAt int64 `gorm:"autoCreateTime:milli"` // shadows Base.CreatedAt (time.Time)
+	Rev       uint8 `gorm:"default:3"`            // shadows Audit.Rev (int32, default:1), declared before *Audit
+	*Audit
+	By *string // shadows Audit.By (string)
+}
+
+// SShadowKey: the key of the embedded struct is shadowed by an outer key of another kind.
+type SShadowKey struct {
+	Base
+	ID      string `gorm:"primaryKey"` // shadows Base.ID (uint)
+	Payload string
+	Note    sql.NullString `gorm:"column:legacy__note"`
+}
+
 type staticModel struct {
 	name  string
 	typ   reflect.Type
@@ -70,4 +90,6 @@ var staticModels = []staticModel{
 	{"SAnon", reflect.TypeOf(SAnon{}), "s_anons"},
 	{"SModel", reflect.TypeOf(SModel{}), "c03_custom_table"},
 	{"SComp", reflect.TypeOf(SComp{}), "s_comps"},
+	{"SShadow", reflect.TypeOf(SShadow{}), "s_shadows"},
+	{"SShadowKey", reflect.TypeOf(SShadowKey{}), "s_shadow_keys"},
 }
